@@ -6,6 +6,7 @@ From Piko Require Import Base.Maps Base.Strs Gossip.Types Gossip.Local Gossip.Ap
 From Piko Require Import GossipP.Valid GossipP.ApplyValid GossipP.WorldInv.
 From Coq Require Import ZArith.
 From Piko Require Import generated.Constants GossipP.ConstantsP.
+From Piko Require Import Gossip.DeltaVariants GossipP.DeltaVariantsP.
 Import ListNotations.
 Open Scope string_scope. Open Scope N_scope.
 
@@ -117,6 +118,16 @@ Theorem C17_compaction_never_indexes_empty :
   GoConst.compactKey = Types.compactKey.
 Proof. exact (conj compact_never_empty (conj src_compaction_never_panics (conj compact_zero_threshold_hits (proj2 src_reserved_keys)))). Qed.
 
+(* "observers that synchronise afterwards end up with the same live state" depends on the compaction marker travelling AFTER
+   the re-versioned entries. The variant that sorts internal entries first (seeded change C17-12) is refuted on the model:
+   an observer holding the pre-compaction state, synchronised with the real delta, ends with the owner's live keys; with the
+   marker first it ends at the owner's version with none of them. *)
+Theorem C17_marker_first_variant_refuted :
+  live_keys dv_post = ["a"; "b"] /\
+  (exists V, dv_sync (delta_entry_of dv_post 3) = Some V /\ n_ver V = n_ver dv_post /\ live_keys V = ["a"; "b"]) /\
+  (exists V, dv_sync (delta_entry_marker_first dv_post 3) = Some V /\ n_ver V = n_ver dv_post /\ live_keys V = []).
+Proof. exact marker_first_variant_refuted. Qed.
+
 Print Assumptions C17_lww_refinement.
 Print Assumptions C17_lww_refinement_from.
 Print Assumptions C17_invariant_reachable.
@@ -127,3 +138,4 @@ Print Assumptions C17_observers_agree.
 Print Assumptions C17_refuted_pinned.
 Print Assumptions C17_example_history.
 Print Assumptions C17_compaction_never_indexes_empty.
+Print Assumptions C17_marker_first_variant_refuted.
